@@ -24,8 +24,12 @@ Containers == {"ok_result", "ok_noresult", "fail_at_0", "fail_at_2", "real_runne
 
 \* prior: what the SAME dataset object executed before this query - nothing, a query carrying docker metadata
 \* (another image) that ran, or one whose translation failed.  Expected() does not mention it: that is the property.
-Priors == {"none", "md_ok", "md_fail"}
-Scenario == [backend : Backends, files : FilesCfg, md : {"absent", "present"}, outdir : {"given", "default"},
+\* same_query: this very query object was executed once already (with a container that succeeded)
+Priors == {"none", "md_ok", "md_fail", "same_query"}
+\* md: docker metadata absent / alone / followed or preceded in the chain by metadata that yields no value of its
+\* own (a method type declaration) / together with a job-script block
+MdCfg == {"absent", "present", "present_decl", "decl_present", "present_script"}
+Scenario == [backend : Backends, files : FilesCfg, md : MdCfg, outdir : {"given", "default"},
              translation : {"ok", "fails"}, container : Containers, prior : Priors]
 
 \* the harness constructs every dataset with docker_image = "vp/dataset-image", docker_tag = "tag1"
@@ -53,7 +57,7 @@ Expected(sc) ==
              [] Ends(sc) = "docker" -> "DockerException"
              [] OTHER -> "any",
    started |-> Ends(sc) \in {"docker", "extract", "done"},       \* was a container started at all
-   image |-> IF sc.md = "present" THEN MdImage ELSE DefaultImage(sc.backend),
+   image |-> IF sc.md # "absent" THEN MdImage ELSE DefaultImage(sc.backend),
    filelist |-> [i \in 1..NFiles(sc.files) |-> "/data/" \o FileNames[i]],
    cache |-> CacheMounts(sc.backend),
    returns |-> Ends(sc) = "done"]
